@@ -396,7 +396,7 @@ pub fn run_c36e(ctx: &mut Ctx) {
         return
     }
     for input in ctx.corpus("C36e") { run_metrics_case(ctx, &input) }
-    let n = ctx.budget(40, 600);
+    let n = ctx.budget(150, 1500);
     for _ in 0..n {
         let clients = ctx.rng.range(1, 5);
         let plan: Vec<Value> = (0..clients).map(|_| json!({
